@@ -25,6 +25,7 @@ RULE = ("case = one random class family (nested, mutually recursive, inherited, 
 ASSUMPTIONS = ["only the interleavings actually produced by the yield injector are observed (fingerprints are reported)",
                "wall-clock never decides: a per-family watchdog only makes the case inconclusive"]
 BUDGET_S = {"quick": 240, "thorough": 1500}
+CASES_PER_PROCESS = {"quick": 200, "thorough": 400}
 MIN_EVENTS = {"quick": {"evaluations": 8000, "op_agree": 8000, "thread_families": 60, "distinct_schedules": 50, "yield_points": 20000},
               "thorough": {"evaluations": 300000, "op_agree": 300000, "thread_families": 2000, "distinct_schedules": 1500, "yield_points": 600000}}
 
